@@ -26,7 +26,7 @@ import operator
 import os
 import time
 
-from harness import common
+from harness import common, gen_targets
 from harness.common import Check, coq_bool
 
 META = {
@@ -895,6 +895,7 @@ def small_key(spec):
 def run(ck: Check) -> None:
     common.assert_repo_imports()
     ck.coq_props(extra_targets=["theories/DistExec.vo"])
+    gen_targets.run(ck)          # translator tie: Gallina regenerated from the source + coq/gen/EquivC06.v
     thorough = ck.tier == "thorough"
     specs = gen_scenarios(ck)
     items = [(i, s, "sim") for i, s in enumerate(specs)]
@@ -1057,6 +1058,7 @@ def run(ck: Check) -> None:
         "every rank receives the same gradients (DDP averages them before the optimizer step)",
     ]
     ck.notes.append(f"{SIG_STARVATION} (F6) and {SIG_MESH} (F7) were repaired in /repo: the model runs with p_global_skip = p_eager_meshes = true; starving histories are generated on purpose and must pass; a reappearance is reported under these signatures")
+    ck.gen_equiv_verdict()
 
 
 def replay(obj) -> bool:
